@@ -8,31 +8,31 @@ import (
 // code with the library.
 
 type J2KSIZ struct {
-	Rsiz                     int
-	Xsiz, Ysiz, XOsiz, YOsiz int
+	Rsiz                         int
+	Xsiz, Ysiz, XOsiz, YOsiz     int
 	XTsiz, YTsiz, XTOsiz, YTOsiz int
-	Csiz                     int
-	Ssiz, XRsiz, YRsiz       []int
+	Csiz                         int
+	Ssiz, XRsiz, YRsiz           []int
 }
 
 type J2KCOD struct {
-	Scod       int
-	Prog       int
-	Layers     int
-	MCT        int
-	Levels     int
-	XCB, YCB   int // code-block exponents (xcb = value+2)
-	Style      int
-	Transform  int // 0 = 9/7 irreversible, 1 = 5/3 reversible
-	Precincts  []byte
+	Scod      int
+	Prog      int
+	Layers    int
+	MCT       int
+	Levels    int
+	XCB, YCB  int // code-block exponents (xcb = value+2)
+	Style     int
+	Transform int // 0 = 9/7 irreversible, 1 = 5/3 reversible
+	Precincts []byte
 }
 
 type J2KQCD struct {
-	Sqcd   int
-	Guard  int
-	Style  int   // 0 none, 1 derived, 2 expounded
-	Eps    []int // exponents
-	Mu     []int // mantissas (0 for style 0)
+	Sqcd  int
+	Guard int
+	Style int   // 0 none, 1 derived, 2 expounded
+	Eps   []int // exponents
+	Mu    []int // mantissas (0 for style 0)
 }
 
 type J2KTilePart struct {
@@ -44,19 +44,19 @@ type J2KTilePart struct {
 type J2KTLMEntry struct{ Ttlm, Ptlm int }
 
 type J2KInfo struct {
-	SIZ        J2KSIZ
-	HasCAP     bool
-	CAP        []byte
-	COD        *J2KCOD
-	QCD        *J2KQCD
-	NumCOC     int
-	NumQCC     int
-	RGN        int
+	SIZ           J2KSIZ
+	HasCAP        bool
+	CAP           []byte
+	COD           *J2KCOD
+	QCD           *J2KQCD
+	NumCOC        int
+	NumQCC        int
+	RGN           int
 	MCT, MCC, MCO int
-	COM        [][]byte
-	TLM        []J2KTLMEntry
-	HasTLM     bool
-	TileParts  []J2KTilePart
+	COM           [][]byte
+	TLM           []J2KTLMEntry
+	HasTLM        bool
+	TileParts     []J2KTilePart
 	MainHeaderEnd int
 	BadBodyPairs  int // FF followed by >8F inside tile-part bodies
 	FirstBadPair  int
